@@ -259,7 +259,7 @@ CLAIMS = {
     'C18': dict(
         technique='Coq proofs by induction over chains / port lists about a hand transcription of StilFile.__init__/_maps/tests/responses/'
                   'tests_loc; exact correspondence incl. error cases; differential tests through a STIL generator that owns the ground truth',
-        text='Proof (elaboration full, grammar by correspondence). For ALL circuits, chains, marker placements, signal-group orders and '
+        text='Proof (full from TEXT). TEXT LEVEL: Model/StilText.v transcribes the STIL grammar with lark\'s contextual lexing and the StilTransformer callbacks; the accepted language is characterised exactly (C18_text_language: a text parses to a tree iff it is a rendering of a well-formed concrete syntax tree, converse included), ignored blocks are skipped exactly on balanced braces incl. brace-swallowing comments (C18_text_ignored_block_iff), layout and ignored blocks / statements are irrelevant (C18_text_layout_irrelevant, _transform_core), parse(print f) = f (C18_text_parse_print), chains / groups / calls are the last definitions as written, and the scan load/unload and pi/po position theorems are restated starting from text (C18_text_scan_load_position ...); compared with the real stil.parse on generated, mutated, malformed and 205 corner-case texts on every run. For ALL circuits, chains, marker placements, signal-group orders and '
              'strings satisfying wf_scan (distinct interface names, every scan port in one chain, every cell at one place): the cell '
              'pre ++ cell :: post of a chain receives character number ncell(post) of the load string, inverted iff an odd number of "!" '
              'markers lies between scan-in and the cell (unknown/unassigned untouched); responses() likewise with the markers between the '
